@@ -112,7 +112,8 @@ theorem mainLoop_stray_step (hs : cm.isSpace 125 = false) (ht : cm.isToken 125 =
   have he : strayState.eof = false := rfl
   simp only [he, Bool.false_eq_true, if_false]
   rw [skipSp_stray cm hs]
-  simp [top_stray cm hs ht]
+  have hdo : descOpt cm 125 strayState = (none, strayState) := by simp [descOpt]
+  simp [hdo, top_stray cm hs ht]
 
 /-- C03 is false of the pinned tree (D01): for every amount of fuel — i.e. however long one waits —
 `parseSDL` on the one-byte schema text `}` has not returned.  `cm` is any classification in which `}`
@@ -136,8 +137,8 @@ theorem C03_fixed_stray (hs : cm.isSpace 125 = false) (ht : cm.isToken 125 = fal
   have he : strayState.eof = false := rfl
   simp only [he, Bool.false_eq_true, if_false]
   rw [skipSp_stray cm hs]
-  have h34 : ((125 : UInt8) == 34) = false := by decide
-  simp only [h34, Bool.false_eq_true, if_false, top_stray_fixed cm hs ht]
+  have hdo : descOpt cm 125 strayState = (none, strayState) := by simp [descOpt]
+  simp only [hdo, top_stray_fixed cm hs ht]
   simp [strayState]
 
 end Ggql.C03
